@@ -213,7 +213,7 @@ def budget(tier):
 
 
 def strategy(tier):
-    base = dict(unknown=False)
+    base = dict(unknown=False, side_shows=True)
     pools = [
         gen.cases(tape_size=100, short_bias=True, **base),
         gen.cases(tape_size=100, **base),
@@ -261,7 +261,14 @@ def check(case, stats):
         out.append(V(ID, 'unbounded', '',
                      f'{len(s.operations)} operations > bound'
                      f' {op_bound(cfg, s)}'))
-    word = phase_word(s.operations)
+    # the documented non-standard show (explicit index, no street in
+    # progress) is not a phase of the hand
+    side = set(getattr(res.interp, 'side_show_ops', ()) if res.interp
+               else ())
+    if side:
+        stats.count('class:side_show_while_chips_are_moved')
+    word = phase_word([o for j, o in enumerate(s.operations)
+                       if j not in side])
     bad = check_word(word, True)
     if bad:
         out.append(V(ID, 'phase_order', bad,
